@@ -382,12 +382,12 @@ func main() {
 			if u.kind != "evaluate" {
 				bound = 1
 			}
-			var writes, reads int
+			var writes, reads, lockOps int
 			st := vsync.ExploreAll(vsync.Options{Bound: bound, Stop: c.Expired, MaxExec: 2000, Prune: true, SymmetricSpawn: []string{"render.evalRoutines"}}, body, func(x *vsync.Execution, prefix []int) bool {
 				if built != nil {
 					typ = strings.TrimPrefix(reflect.TypeOf(built).String(), "*")
 				}
-				writes, reads = x.Writes, x.Reads
+				writes, reads, lockOps = x.Writes, x.Reads, x.LockOps
 				r := sc
 				r.Prefix = append([]int{}, x.Choices...)
 				if len(x.Races) > 0 {
@@ -413,7 +413,11 @@ func main() {
 			}
 			if u.kind == "evaluate" && hashBefore != hashAfter {
 				j.Count("types-whose-Evaluate-mutates-state", 1)
-				if writes == 0 {
+				if lockOps == 0 {
+					// the evaluating threads never synchronise, yet Evaluate mutates state reachable from the
+					// shared shape: concurrent calls race on it whatever the schedule
+					j.Violation("data-race|Evaluate-mutates-shared-state-without-synchronisation|"+typ, fmt.Sprintf("%s (%s): a sequential Evaluate pass changed the shape's reachable state and no lock is taken", name, typ), sc)
+				} else if writes == 0 {
 					j.HarnessError("%s (%s): Evaluate changed the shape's reachable state but the instrumentation saw no write", name, typ)
 				}
 				// a mutating shape: explore its interleavings too
